@@ -2,17 +2,18 @@ import InToto.Verify
 /-!
 # Deciding whether a supply chain was carried out honestly (hypotheses of `honest_chain_verifies`)
 
-Definitions only; the theorems are in `Proofs/Honest.lean`. Every step has one
-authorised functionary whose link is in place - under the id of the authorised key
-(as `in-toto-record` names it) or under the id of one of that key's subkeys (as
-`in-toto-run` names it when a gpg signing subkey made the signature) - validly
-signed and naming the step.
+Definitions only; the theorems are in `Proofs/Honest.lean`. Every step was carried
+out by some of its authorised functionaries - at least `threshold` of them - each of
+whose links is in place: under the id of the authorised key (as `in-toto-record`
+names it) or under the id of one of that key's subkeys (as `in-toto-run` names it
+when a gpg signing subkey made the signature), validly signed and naming the step;
+authorised functionaries who did not take part left no file; where more than one
+link is asked for, they all report what the first reports.
 -/
 namespace InToto
 
-/-- What the honest performance of one step left behind. -/
-structure StepRecord where
-  name : Str
+/-- What one functionary's honest performance of a step left behind. -/
+structure FuncRecord where
   kid : Str
   /-- the key id in the name of the link file: `kid` or one of the key's subkeys -/
   fileId : Str
@@ -20,41 +21,73 @@ structure StepRecord where
   md : Metadata
   lk : Link
 
-def loadedOf (rs : List StepRecord) : Dict Str (Dict Str Metadata) := rs.map (fun r => (r.name, [(r.fileId, r.md)]))
-def chainOf (rs : List StepRecord) : Dict Str (Dict Str Link) := rs.map (fun r => (r.name, [(r.fileId, r.lk)]))
-def linksOf (rs : List StepRecord) : Dict Str Link := rs.map (fun r => (r.name, r.lk))
+/-- What the honest performance of one step left behind: the records of the
+functionaries who took part, in the order in which the step lists them. -/
+structure StepRecord where
+  name : Str
+  parts : List FuncRecord
 
-/-- The record of an honestly performed step, if the step was performed that way. -/
-def honestRecord (w : World) (l : Layout) (dir : Str) (step : Step) : Option StepRecord :=
-  match step.name, step.pubkeys with
-  | some name, [kid] =>
-    if step.threshold = 1 then
-      match Dict.get? l.keys kid with
+def StepRecord.loaded (r : StepRecord) : Dict Str Metadata := r.parts.map (fun f => (f.fileId, f.md))
+def StepRecord.chain (r : StepRecord) : Dict Str Link := r.parts.map (fun f => (f.fileId, f.lk))
+
+def loadedOf (rs : List StepRecord) : Dict Str (Dict Str Metadata) := rs.map (fun r => (r.name, r.loaded))
+def chainOf (rs : List StepRecord) : Dict Str (Dict Str Link) := rs.map (fun r => (r.name, r.chain))
+/-- The link used for a step: the first functionary's. -/
+def firstLinks (rs : List StepRecord) : List (Str × Link) :=
+  rs.filterMap (fun r => match r.parts with | [] => none | f :: _ => some (r.name, f.lk))
+def linksOf (rs : List StepRecord) : Dict Str Link := firstLinks rs
+
+/-- The ids under which the verifier looks for the link of the functionary authorised as `a`. -/
+def segOf (l : Layout) (a : Str) : List Str := a :: subkeyIds (Dict.get? l.keys a)
+
+def present (w : World) (dir name cid : Str) : Bool := (loadFile w (pathJoin dir (linkFileName name cid))).isSome
+
+/-- The record of one authorised functionary: `some none` = took no part (no file under
+any of the ids), `some (some f)` = took part honestly, `none` = neither. -/
+def honestFunc (w : World) (l : Layout) (dir name a : Str) : Option (Option FuncRecord) :=
+  match (segOf l a).filter (present w dir name) with
+  | [] => some none
+  | fid :: more =>
+    if more.all (fun x => x = fid) = true then
+      match Dict.get? l.keys a with
       | some keyJ =>
-        if keyidOf keyJ = .ok kid then
-          -- the ids under which the verifier looks: the key's own and those of its subkeys (a gpg key bundle may list
-          -- some); a link file lies under exactly one of them
-          match (kid :: subkeyIds (some keyJ)).filter
-              (fun cid => (loadFile w (pathJoin dir (linkFileName name cid))).isSome) with
-          | fid :: more =>
-            if more.all (fun x => x = fid) = true then
-              match loadFile w (pathJoin dir (linkFileName name fid)) with
-              | some (.ok md) =>
-                if md.verifySignature w.S w.nowSec keyJ = .ok then
-                  match md.getPayload with
-                  | .ok (.link lk) =>
-                    if lk.name = some name then
-                      some { name := name, kid := kid, fileId := fid, keyJ := keyJ, md := md, lk := lk }
-                    else none
-                  | _ => none
+        if keyidOf keyJ = .ok a then
+          match loadFile w (pathJoin dir (linkFileName name fid)) with
+          | some (.ok md) =>
+            if md.verifySignature w.S w.nowSec keyJ = .ok then
+              match md.getPayload with
+              | .ok (.link lk) =>
+                if lk.name = some name then some (some { kid := a, fileId := fid, keyJ := keyJ, md := md, lk := lk })
                 else none
               | _ => none
             else none
-          | [] => none
+          | _ => none
         else none
       | none => none
     else none
-  | _, _ => none
+
+def honestFuncs (w : World) (l : Layout) (dir name : Str) : List Str → Option (List FuncRecord)
+  | [] => some []
+  | a :: rest =>
+    match honestFunc w l dir name a, honestFuncs w l dir name rest with
+    | some none, some fs => some fs
+    | some (some f), some fs => some (f :: fs)
+    | _, _ => none
+
+/-- The record of an honestly performed step, if the step was performed that way. -/
+def honestRecord (w : World) (l : Layout) (dir : Str) (step : Step) : Option StepRecord :=
+  match step.name with
+  | some name =>
+    if (candidateIds l step).Nodup then
+      match honestFuncs w l dir name step.pubkeys with
+      | some (f :: fs) =>
+        if step.threshold ≤ ((f :: fs).length : Int) ∧
+            (step.threshold ≤ 1 ∨ allAgree ((f :: fs).map (fun g => (g.fileId, g.lk))) = true) then
+          some { name := name, parts := f :: fs }
+        else none
+      | _ => none
+    else none
+  | none => none
 
 def honestRecords (w : World) (l : Layout) (dir : Str) : List Step → Option (List StepRecord)
   | [] => some []
